@@ -455,7 +455,11 @@ class InProtocolBase(ProtocolMixin):
             if match:
                 tz_hr, tz_min = [int(match.group(x))
                                                    for x in ("tz_hr", "tz_min")]
-                tz = FixedOffset(tz_hr * 60 + tz_min, {})
+                try:
+                    tz = FixedOffset(tz_hr * 60 + tz_min, {})
+                except ValueError as e:
+                    # pytz: absolute offset is too large
+                    raise ValidationError(string, "%%r: %s" % (e,))
                 retval = _parse_datetime_iso_match(match, tz=tz)
                 if astz is not None:
                     retval = retval.astimezone(astz)
